@@ -212,25 +212,33 @@ func (vc *VC) callWithContract(fr *frame, n *Node, x *ssa.Call, callee *ssa.Func
 }
 
 func (vc *VC) inlineCall(fr *frame, n *Node, x *ssa.Call, callee *ssa.Function, clo *closureVal, args []Val) {
+	outs, ok := vc.inlineBody(fr.depth, fr.goMods, n, callee, clo, args, x.Name(), vc.pos(x.Pos()))
+	if !ok {
+		vc.havocMods(n, &ModSet{all: true})
+		vc.bindResult(n, x, callee.Signature, vc.freshResults(n, x.Name(), callee.Signature))
+		return
+	}
+	vc.bindResult(n, x, callee.Signature, outs)
+}
+
+// inlineBody encodes the body of callee at the current point of node n and returns its results.
+func (vc *VC) inlineBody(depth int, goMods *ModSet, n *Node, callee *ssa.Function, clo *closureVal, args []Val, name, pos string) ([]Val, bool) {
 	fc := vc.prog.ContractFor(callee)
-	sub := vc.newFrame(callee, fc, fr.depth+1)
+	sub := vc.newFrame(callee, fc, depth+1)
 	sub.params = args
 	if clo != nil {
 		sub.freeVars = clo.bindings
 	}
 	if len(callee.FreeVars) != len(sub.freeVars) {
-		vc.errorf("%s: closure %s called without bindings", vc.pos(x.Pos()), callee.Name())
-		vc.havocMods(n, &ModSet{all: true})
-		vc.bindResult(n, x, callee.Signature, vc.freshResults(n, x.Name(), callee.Signature))
-		return
+		vc.errorf("%s: closure %s called without bindings", pos, callee.Name())
+		return nil, false
 	}
-	sub.goMods = fr.goMods
+	sub.goMods = goMods
 	vc.runBody(sub, n.st, n.reach)
 	if len(sub.rets) == 0 {
 		// callee never returns (always panics): the rest of this node is unreachable
 		vc.assume(not(n.reach))
-		vc.bindResult(n, x, callee.Signature, vc.freshResults(n, x.Name(), callee.Signature))
-		return
+		return vc.freshResults(n, name, callee.Signature), true
 	}
 	var conds []string
 	var states []*State
@@ -251,13 +259,13 @@ func (vc *VC) inlineCall(fr *frame, n *Node, x *ssa.Call, callee *ssa.Function, 
 				term = fmt.Sprintf("(ite %s %s %s)", sub.rets[k].reach, sub.rets[k].results[i].T, term)
 			}
 		}
-		v := vc.def(x.Name(), vc.enc.sortOf(rt), term)
+		v := vc.def(name, vc.enc.sortOf(rt), term)
 		outs = append(outs, Val{T: v, Typ: rt})
 		if cv, ok := vc.clos[term]; ok {
 			vc.clos[v] = cv
 		}
 	}
-	vc.bindResult(n, x, callee.Signature, outs)
+	return outs, true
 }
 
 func (vc *VC) mergeStates(conds []string, states []*State) *State {
